@@ -46,6 +46,10 @@ pub struct Case {
     pub mat: MatSpec,
     pub scores: Vec<SQuery>,
     pub pvalues: Vec<PQuery>,
+    /// the matrix is over `userabc::Abc41` (40 symbols and a wildcard, declared through the public traits) instead
+    /// of `abc`: rows of 41 cells, width 2..3
+    #[serde(default)]
+    pub user41: bool,
 }
 
 /// Maximum number of refinement steps driven (granularity 0.1 .. 1e-8).
@@ -153,9 +157,20 @@ fn strategy(tier: Tier) -> BoxedStrategy<Case> {
                 1 => Just(PQuery::NearOne),
                 3 => (1u16..=999, 0u8..=6).prop_map(|(m, e)| PQuery::Value(m, e)),
             ];
-            (Just(abc), mat_for(abc, tier), proptest::collection::vec(sq, 6..=12), proptest::collection::vec(pq, 6..=12))
+            // one matrix in fourteen over the 40-symbol alphabet (width 2 or 3: 1600 / 64000 words)
+            let wide = (2usize..=3).prop_flat_map(|m| {
+                (proptest::collection::vec(proptest::collection::vec(prop_oneof![3 => -12.0f32..=12.0, 1 => (-24i32..=24).prop_map(|x| x as f32 / 4.0)], 41), m), bg_strategy(41, false, false)).prop_map(|(rows, bg)| {
+                    let mut rows: Vec<Vec<Fl>> = rows.into_iter().map(|r| r.into_iter().map(Fl).collect()).collect();
+                    for r in rows.iter_mut() {
+                        r[40] = Fl(f32::NEG_INFINITY);
+                    }
+                    MatSpec { rows, bg, regime: "finite".into() }
+                })
+            });
+            let mat = prop_oneof![13 => mat_for(abc, tier).prop_map(|m| (m, false)), 1 => wide.prop_map(|m| (m, true))];
+            (Just(abc), mat, proptest::collection::vec(sq, 6..=12), proptest::collection::vec(pq, 6..=12))
         })
-        .prop_map(|(abc, mat, scores, pvalues)| Case { abc, mat, scores, pvalues })
+        .prop_map(|(abc, (mat, user41), scores, pvalues)| Case { abc, mat, scores, pvalues, user41 })
         .boxed()
 }
 
@@ -177,7 +192,7 @@ struct Prep<A: Alphabet> {
 }
 
 fn prep<A: Alphabet>(case: &Case) -> Prep<A> {
-    let k = case.abc.k();
+    let k = A::symbols().len();
     let cells = case.mat.cells();
     let pssm = build_pssm::<A>(&case.mat);
     // TFM-PVALUE works over the K-1 real symbols
@@ -199,8 +214,9 @@ fn prep<A: Alphabet>(case: &Case) -> Prep<A> {
 }
 
 fn classify(case: &Case, k: usize, bgf: &[f32], info: &mut CaseInfo) {
-    info.class_if(case.abc == Abc::Dna, "dna");
-    info.class_if(case.abc == Abc::Protein, "protein");
+    info.class_if(case.abc == Abc::Dna && !case.user41, "dna");
+    info.class_if(case.abc == Abc::Protein && !case.user41, "protein");
+    info.class_if(case.user41, "caller-declared-alphabet-of-40-symbols");
     let u = bgf[0];
     info.class_if(bgf[..k - 1].iter().any(|&x| (x - u).abs() > 1e-6), "non-uniform-background");
     info.class_if(case.mat.rows.iter().any(|r| r[k - 1].0.is_finite()), "finite-wildcard-column");
@@ -217,7 +233,7 @@ pub struct PvalueRanges;
 
 fn run12<A: Alphabet>(case: &Case, info: &mut CaseInfo) -> Option<Failure> {
     let p = prep::<A>(case);
-    let k = case.abc.k();
+    let k = A::symbols().len();
     classify(case, k, p.pssm.background().frequencies(), info);
     let t = &p.tail;
     let picks: Vec<usize> = case
@@ -357,7 +373,7 @@ impl Sub for PvalueRanges {
         "pvalue-ranges"
     }
     fn rule(&self) -> &'static str {
-        "DNA width 2..8 (quick) / ..12 (thorough), protein 2..3; library-made, arbitrary finite and grid-valued (every cell a multiple of 1/2 .. 1/32, 0.2, 0.05 or 1) matrices (wildcard column -inf, = row minimum, or arbitrary finite) x uniform / non-uniform backgrounds, also ones giving the wildcard some frequency (the real symbols then carry less than unit mass per position); 6..12 scores per matrix (below min, min, exactly attainable, just above attainable, between, max, 1e-7..1.2e-6 below max, above max, arbitrary); approximate_pvalue driven for at most 8 refinement steps; every step: 0 <= pmin <= pmax <= total mass, P(S>=s+(M+1)g) <= pmin, pmax <= P(S>=s-(M+2)g) against exact meet-in-the-middle enumeration over the real symbols; pvalue() checked when the bounded run converged; non-trivial = M >= 3, a query strictly inside (min, max) and >= 2 refinement steps"
+        "DNA width 2..8 (quick) / ..12 (thorough), protein 2..3, and (one matrix in fourteen) a caller-declared alphabet of 40 symbols and a wildcard, width 2..3; library-made, arbitrary finite and grid-valued (every cell a multiple of 1/2 .. 1/32, 0.2, 0.05 or 1) matrices (wildcard column -inf, = row minimum, or arbitrary finite) x uniform / non-uniform backgrounds, also ones giving the wildcard some frequency (the real symbols then carry less than unit mass per position); 6..12 scores per matrix (below min, min, exactly attainable, just above attainable, between, max, 1e-7..1.2e-6 below max, above max, arbitrary); approximate_pvalue driven for at most 8 refinement steps; every step: 0 <= pmin <= pmax <= total mass, P(S>=s+(M+1)g) <= pmin, pmax <= P(S>=s-(M+2)g) against exact meet-in-the-middle enumeration over the real symbols; pvalue() checked when the bounded run converged; non-trivial = M >= 3, a query strictly inside (min, max) and >= 2 refinement steps"
     }
     fn cases(&self, tier: Tier) -> u64 {
         tier.pick(20_000, 150_000)
@@ -370,7 +386,7 @@ impl Sub for PvalueRanges {
             return Verdict::Pass(CaseInfo::new());
         }
         let mut info = CaseInfo::new();
-        let f = with_abc!(case.abc, A => run12::<A>(case, &mut info));
+        let f = if case.user41 { run12::<crate::userabc::Abc41>(case, &mut info) } else { with_abc!(case.abc, A => run12::<A>(case, &mut info)) };
         match f {
             Some(f) => Verdict::Fail(f),
             None => Verdict::Pass(info),
@@ -401,8 +417,10 @@ fn run_long<A: Alphabet>(case: &LongCase, info: &mut CaseInfo) -> Option<Failure
     let rel = 1e-9;
     let _ = total;
     let t = crate::tail::UpperTail::new(&cells, &bg);
-    let cap = 3_000_000u64;
+    let cap = if cells.len() > 34 { 300_000u64 } else { 3_000_000u64 };
     let mut tfmp = TfmPvalue::new(&pssm);
+    info.class_if(cells.len() > 34, "M>34");
+    info.class_if(cells.len() >= 70, "M>=70");
     for d in &case.below_max {
         let s = t.max - d.0 as f64;
         for it in tfmp.approximate_pvalue(s).take(4) {
@@ -447,7 +465,7 @@ impl Sub for LongMotifs {
         "long-motifs-upper-tail"
     }
     fn rule(&self) -> &'static str {
-        "motifs too wide for full enumeration (DNA width 14..34, protein 6..15; arbitrary finite, grid-valued and library-made cells) queried 0.3 .. 6 score units below their maximum; approximate_pvalue driven for at most 4 steps; the exact tails P(S>=s+(M+1)g) and P(S>=s-(M+2)g) come from a depth-first enumeration of the words pruned by the best remaining score (given up after 3e6 prefixes: that bound is then skipped and counted); non-trivial = a step whose lower-bound tail is positive"
+        "motifs too wide for full enumeration (DNA width 14..34 and, three in eight, 35..130; protein 6..15 and 16..60; arbitrary finite, grid-valued and library-made cells) queried 0.3 .. 6 score units below their maximum; approximate_pvalue driven for at most 4 steps; the exact tails P(S>=s+(M+1)g) and P(S>=s-(M+2)g) come from a depth-first enumeration of the words pruned by the best remaining score (given up after 3e6 prefixes, 3e5 beyond 34 positions: that bound is then skipped and counted); non-trivial = a step whose lower-bound tail is positive"
     }
     fn cases(&self, tier: Tier) -> u64 {
         tier.pick(1_500, 40_000)
@@ -456,7 +474,9 @@ impl Sub for LongMotifs {
         prop_oneof![3 => Just(Abc::Dna), 1 => Just(Abc::Protein)]
             .prop_flat_map(|abc| {
                 let k = abc.k();
-                let width = if abc == Abc::Dna { 14usize..=34 } else { 6usize..=15 };
+                // mostly just beyond enumeration; three in eight much wider (to 130 / 60 positions: real motif
+                // collections have such entries, and window sizes grow with the width)
+                let width = if abc == Abc::Dna { prop_oneof![5 => 14usize..=34, 3 => 35usize..=130].boxed() } else { prop_oneof![5 => 6usize..=15, 2 => 16usize..=60].boxed() };
                 let mat = width.prop_flat_map(move |m| {
                     let fin = (proptest::collection::vec(proptest::collection::vec(-6.0f32..=6.0, k), m), bg_strategy(k, false, false)).prop_map(move |(rows, bg)| {
                         let mut rows: Vec<Vec<Fl>> = rows.into_iter().map(|r| r.into_iter().map(Fl).collect()).collect();
@@ -468,7 +488,7 @@ impl Sub for LongMotifs {
                     let lib = mat_strategy(abc, Just(m).boxed(), Regimes { library: true, finite: false, neginf: false, small_int: false, near_tie: false });
                     prop_oneof![2 => fin, 1 => lib]
                 });
-                (Just(abc), mat, proptest::collection::vec((0.3f32..6.0).prop_map(Fl), 1..=3))
+                (Just(abc), mat, proptest::collection::vec((0.3f32..6.0).prop_map(Fl), 1..=5))
             })
             .prop_map(|(abc, mat, below_max)| LongCase { abc, mat, below_max })
             .boxed()
@@ -525,7 +545,7 @@ pub struct ScoreThresholds;
 
 fn run13<A: Alphabet>(case: &Case, cx: &Cx, info: &mut CaseInfo) -> Option<Failure> {
     let p = prep::<A>(case);
-    let k = case.abc.k();
+    let k = A::symbols().len();
     classify(case, k, p.pssm.background().frequencies(), info);
     let t = &p.tail;
     let picks: Vec<usize> = case
@@ -686,7 +706,7 @@ impl Sub for ScoreThresholds {
             return Verdict::Pass(CaseInfo::new());
         }
         let mut info = CaseInfo::new();
-        let f = with_abc!(case.abc, A => run13::<A>(case, cx, &mut info));
+        let f = if case.user41 { run13::<crate::userabc::Abc41>(case, cx, &mut info) } else { with_abc!(case.abc, A => run13::<A>(case, cx, &mut info)) };
         match f {
             Some(f) => Verdict::Fail(f),
             None => Verdict::Pass(info),
